@@ -191,7 +191,7 @@ func CheckApi(sc *Scenario, out *ApiRunOut, res *RunResult) {
 				}
 			}
 			l := c.Limits
-			if l.Depth > 0 && !stopped && l.Nodes == 0 && !l.TimeControlled() && !l.needsStop() && len(legal) > 1 {
+			if l.Depth > 0 && !stopped && l.Nodes == 0 && !l.TimeControlled() && !l.needsStop() && len(legal) > 1 && len(l.Moves) != 1 {
 				res.count("depth_samples", 1)
 				if f.Depth != l.Depth {
 					res.addViolation("C13", "depth_not_exact", fmt.Sprintf("depth %d search on %s completed %d iterations", l.Depth, c.Root.Fen(), f.Depth))
